@@ -8,7 +8,7 @@ use crate::util::{par_map, Kv};
 
 pub fn meta(_ctx: &Ctx) -> Meta {
     Meta {
-        rule: "block layer lists {[dense],[dense,dense]} (flat) and {[conv],[conv,conv],[deconv],[conv,deconv],[conv,pool]} (spatial, shape-preserving) x activations {linear, ReLU, tanh} x loops L in 1..4 (1..9 for three of the block lists) x all 4 skip-flag combinations x all 5 accumulations x followed by a dense layer or not x fed by the network input or a preceding layer (dense -> block of spatial layers included) x 2 data valuations (exact small-integer data; inputs multiples of 60 for mean). Oracle: reference interpreter rep_1=f(x), rep_i=f(comb(rep_{i-1},[x])) with input skips, out=comb(rep_L,[rep_1..rep_{L-1}]) with output skips. Non-trivial = reference output has >= 2 distinct non-zero entries".into(),
+        rule: "block layer lists {[dense],[dense,dense]} (flat) and {[conv],[conv,conv],[deconv],[conv,deconv],[conv,pool]} (spatial, shape-preserving) x activations {linear, ReLU, tanh} x loops L in 1..4 (1..9 for three of the block lists) x all 4 skip-flag combinations x all 5 accumulations x followed by a dense layer or not x fed by the network input or a preceding layer (dense -> block of spatial layers included) x 2 data valuations (exact small-integer data, inputs multiples of 60 for mean; the second valuation of linear / ReLU blocks scaled by 2^-20). Oracle: reference interpreter rep_1=f(x), rep_i=f(comb(rep_{i-1},[x])) with input skips, out=comb(rep_L,[rep_1..rep_{L-1}]) with output skips. Non-trivial = reference output has >= 2 distinct non-zero entries".into(),
         bound: "L <= 4, block lists of <= 2 layers, planes 3x3 and 3x4; complete product".into(),
         exhaustive: true,
         assumptions: vec!["bit-exact agreement is counted; the verdict uses tolerance 2e-6*max|reference| for linear/ReLU blocks (division by 3 is not exact) and 5e-4*max|reference| for tanh blocks".into()],
@@ -85,7 +85,9 @@ pub fn check(seed: u64, case: &Kv, rep: &mut Report) {
     let (loops, inskips, outskips, acc) = fb_of(&net);
     let key = format!("{}#{}", net.name(), v);
     let params = structural_params(&net, &shapes, seed, &key);
-    let unit = if acc == Acc::Mean { 60.0 } else { 1.0 };
+    // odd valuations of exact (linear / ReLU) blocks use tiny inputs (2^-20): nothing may depend on the magnitude
+    let tiny = v % 2 == 1 && !net.name().contains("tanh");
+    let unit = if acc == Acc::Mean { 60.0 } else { 1.0 } * if tiny { 9.536_743e-7 } else { 1.0 };
     let x = structural_input(net.input.count(), unit, seed, &key);
     let cls = format!(
         "L{} {}{} {}",
